@@ -56,6 +56,9 @@ T = {
  "C14": ("hook-H3 task lists of the 12 candidates against Collision!MustCheck (pairs with a moved member) for TLC-generated configurations + trace validation of offered offsets (Trace_Collision!JudgeOffsets)",
          "For every configuration and every moved joint the enumerated pairs must cover all non-exempt pairs with a moved member; on scenes laid out to collide at one candidate, TLC recomputes limit compliance and demands offered = legal and free by the full check, under several rayon pools.",
          "The reference for 'free' is the library's own full collides() as the statement says; its correctness is C10's subject.", "4/C14"),
+ "C11": ("trace validation: TLA+ action FilterFree evaluated by TLC on every recorded call of a robot with shape together with the same call on its underlying stack",
+         "Each event holds the underlying stack's answers, the collision verdict of each and the wrapper's answers; TLC demands exact equality with the ordered non-colliding sub-sequence; forward, link poses, limits, singularity and positioned meshes are compared with the independently built Tool(Base(OPW+limits)) model.",
+         "collides() itself is judged by C10; environments are random boxes, geometry irb2400.", "4/C11"),
 }
 
 REASON_TODO = "check not built yet in this round (planned, see DESIGN.md section 9); not claimed until it runs"
